@@ -2,7 +2,7 @@
 """tools/seeded_try.py <mutation-dir> <checks…>  — apply <mutation-dir>/patch.diff to /repo, run the given
 checks (quick tier, or TIER env), undo the patch, print which checks reported a violation."""
 import json, os, subprocess, sys, time
-d = sys.argv[1]; checks = sys.argv[2:]
+d = os.path.abspath(sys.argv[1]); checks = sys.argv[2:]
 tier = os.environ.get("TIER", "quick")
 patch = os.path.join(d, "patch.diff")
 def sh(*a, **k): return subprocess.run(*a, **k)
